@@ -797,3 +797,54 @@ Lemma or_levels_old_accepts :
   check_range_old [[ERange (RInt 1) (RInt 10)]; [ERange (RInt 0) (RInt 100)]] (NInt 50) = Pass /\
   all_levels [[ERange (RInt 1) (RInt 10)]; [ERange (RInt 0) (RInt 100)]] (NInt 50) = Fail.
 Proof. split; vm_compute; reflexivity. Qed.
+
+(** * 12. Selection.Set with an already typed value *)
+Definition membership_base (b : base) : bool :=
+  match b with BEnum _ | BBits _ => true | _ => false end.
+
+Section WithRegex4.
+Variable rx : text -> text -> bool.
+
+Lemma typed_scalar_same b ct s :
+  membership_base b = false -> check_scalar_typed rx b ct s = check_scalar rx b ct s.
+Proof. destruct b; cbn; try discriminate; reflexivity. Qed.
+
+Lemma typed_all_same b ct l :
+  membership_base b = false -> check_all_typed rx b ct l = check_all rx b ct l.
+Proof.
+  intros H. induction l as [|s tl IH]; [reflexivity|]. cbn. rewrite typed_scalar_same by exact H.
+  rewrite IH. reflexivity.
+Qed.
+
+(** for the numeric and string types (whose whole check lives in the pre-constraints) Set with a
+    typed value decides exactly like the converting write paths *)
+Theorem typed_same : forall b il chain v,
+  membership_base b = false -> accept_typed rx b il chain v = accept rx b il chain v.
+Proof.
+  intros b il chain v H. unfold accept_typed, accept. destruct (parse_chain chain) as [pc|]; [|reflexivity].
+  assert (E : check_value_typed rx b il (compile pc) v = check_value rx b il (compile pc) v).
+  { destruct il, v; cbn; try reflexivity; [apply typed_all_same|apply typed_scalar_same]; exact H. }
+  rewrite E. reflexivity.
+Qed.
+
+Theorem typed_no_panic : forall b il chain v, accept_typed rx b il chain v <> Panicked.
+Proof.
+  intros b il chain v. destruct (membership_base b) eqn:E.
+  - unfold accept_typed. destruct (parse_chain chain) as [pc|]; [|discriminate].
+    assert (A : forall s, check_scalar_typed rx b (compile pc) s <> ChkPanic).
+    { intros s. destruct b; try discriminate; destruct s; cbn; try discriminate. }
+    assert (B : forall l, check_all_typed rx b (compile pc) l <> ChkPanic).
+    { induction l as [|s tl IH]; cbn; [discriminate|].
+      pose proof (A s). destruct (check_scalar_typed rx b (compile pc) s); congruence. }
+    destruct il, v; cbn; try discriminate.
+    + pose proof (B l). destruct (check_all_typed rx b (compile pc) l); congruence.
+    + pose proof (A s). destruct (check_scalar_typed rx b (compile pc) s); congruence.
+  - rewrite typed_same by exact E. apply check_no_panic.
+Qed.
+
+Theorem typed_frame : forall b il chain st v,
+  fst (set_typed_model rx b il chain st v) <> Accepted -> snd (set_typed_model rx b il chain st v) = st.
+Proof.
+  intros b il chain st v. unfold set_typed_model. destruct (accept_typed rx b il chain v); cbn; congruence.
+Qed.
+End WithRegex4.
